@@ -6,7 +6,8 @@ from checks.outparse import parse_raws
 
 ID = "C06"
 LEAN_MODULES = ["Econf.Props.C06"]
-THEOREMS = []
+THEOREMS = ["Econf.C06_file", "Econf.readSeq_spec", "Econf.readFirst_spec", "Econf.C06_history_trace", "Econf.C06_no_config",
+            "Econf.C06_no_config_dirs", "Econf.C06_no_history"]
 SHRINK = False
 RULE = ("trees of C01 x callback policies (accept all, reject the k-th call for k = 0..n, reject by path suffix: the main file, a drop-in, "
         "a masked drop-in) x the four callback entry points (single file, layered read, two-directory read, history); the logged "
